@@ -259,7 +259,13 @@ class FunctionDecoratorManager(DecoratorManager):
         # Store HASS Context for this Task
         Function.store_hass_context(data.hass_context)
 
-        result = await data.call_ast_ctx.call_func(self.eval_func, None, **data.func_args)
+        try:
+            result = await data.call_ast_ctx.call_func(self.eval_func, None, **data.func_args)
+        except Exception as exc:
+            # report the error with the script's traceback on the script's logger, like the legacy
+            # subsystem and the service handler do (not as a bare run_coro message)
+            data.call_ast_ctx.log_exception(exc)
+            result = None
         for result_handler_dec in result_handlers:
             await result_handler_dec.handle_call_result(data, result)
 
